@@ -185,7 +185,11 @@ func (f *upstreamLimiter) syncLocalFlowControls(flowControls proxyv1alpha1.FlowC
 		if !ok {
 			// flow control is not created or type changed
 			fc = remote.NewFlowControlCache(f.cluster, newSchema.Name, f.clientID, f.globalCounterProvider)
+			// sync before publishing: requests and the reconcile loop read the map concurrently
+			// and must never see a flow control without a limiter behind it
+			fc.LocalFlowControl().Sync(newSchema)
 			f.flowControls.Store(newSchema.Name, fc)
+			continue
 		}
 		fc.LocalFlowControl().Sync(newSchema)
 	}
